@@ -437,6 +437,26 @@ theorem pack_preserves_stackable (s : Stacked) (hst : stackable s = true) : stac
   exact stackableRev_mono (fun q i h => by rw [hi]; exact h) (fun q c h => by rw [ht]; exact h)
     (fun p h => by rw [hpres]; exact h) (fun p _ h => Or.inl (by rw [← hpres]; exact h)) hold
 
+/-- the repack does not look at the fallback at all: whatever the fallback holds (for
+instance after the branch has been landed on the trunk it is stacked on), the packed
+local store is the same, and every lookup is preserved -/
+theorem pack_independent_of_fallback (st fb fb' : Repo) :
+    (pack ⟨st, fb⟩).st = (pack ⟨st, fb'⟩).st ∧
+    (∀ k, get (pack ⟨st, fb'⟩).st.revs k = get st.revs k) ∧
+    (∀ k, get (pack ⟨st, fb'⟩).st.invs k = get st.invs k) ∧
+    (∀ k, get (pack ⟨st, fb'⟩).st.texts k = get st.texts k) :=
+  ⟨rfl, (pack_preserves_lookups ⟨st, fb'⟩).1, (pack_preserves_lookups ⟨st, fb'⟩).2.1,
+    (pack_preserves_lookups ⟨st, fb'⟩).2.2.1⟩
+
+/-- the invariant depends on the fallback only through which revisions count as present:
+a change of the fallback that makes no further revision present (landing the stacked
+branch's own revisions on the trunk) keeps it -/
+theorem stackable_fallback_change (s : Stacked) (fb' : Repo)
+    (h : ∀ p, presentRev ⟨s.st, fb'⟩ p = presentRev s p) : stackable ⟨s.st, fb'⟩ = stackable s := by
+  have hf : presentRev ⟨s.st, fb'⟩ = presentRev s := funext h
+  unfold stackable stackableRev parentEntries
+  simp only [hf]
+
 /-- the refusal is sound: a write group that leaves the repository `stackable` is
 never refused by `_check_new_inventories` (any number of new revisions, which
 may be each other's parents) -/
@@ -881,6 +901,21 @@ def eStack : Stacked :=
 example : stackable eStack = true ∧ complete eStack.fb = true ∧ invsAgree eStack = true ∧ topo eStack.st = true ∧
     invsHaveRevs eStack = true ∧ readable (both eStack) 3 = true ∧ readable eStack.st 3 = false ∧
     checkNew eStack.st [3] = true ∧ [3].all (hasRev eStack.st) = true := by decide +kernel
+
+/-- eStack after its revision 3 has been landed on the fallback -/
+def lStack : Stacked :=
+  land eStack [(3, ⟨[2], 30⟩)] [(3, [⟨1, 1, 3, 300⟩, ⟨2, 2, 1, 110⟩])] [((1, 3), 300)]
+
+/-- a repack that leaves out the texts the fallback also holds breaks the invariant once
+the branch has been landed: before the landing it changes nothing, after it revision 3
+loses the text it introduces — the stack is no longer `stackable` (nor `stackableW`),
+although everything can still be read through the fallback. -/
+theorem pack_minus_fallback_witness :
+    stackable eStack = true ∧ stackable (packMinusFallback eStack) = true ∧
+    stackable lStack = true ∧ stackable (pack lStack) = true ∧
+    stackable (packMinusFallback lStack) = false ∧ stackableW (packMinusFallback lStack) = false ∧
+    get (packMinusFallback lStack).st.texts (1, 3) = none ∧ get lStack.st.texts (1, 3) = some 300 ∧
+    readable (both (packMinusFallback lStack)) 3 = true := by decide +kernel
 
 /-- a commit of 4 on top of 3 that merges fallback revision 1 -/
 example : commitCovers eStack ⟨[3, 1], 40⟩ [⟨1, 1, 4, 400⟩, ⟨2, 2, 1, 110⟩] [((1, 4), 400)] = true ∧
